@@ -43,7 +43,11 @@ package tokenizers
 //@     invariant skipBlanks(seq(sc(c.AbstractTokenizer.Scanner).content), old(sc(c.AbstractTokenizer.Scanner).position) + 1) == skipBlanks(seq(sc(c.AbstractTokenizer.Scanner).content), sc(c.AbstractTokenizer.Scanner).position + 1)
 //@     decreases len(sc(c.AbstractTokenizer.Scanner).content) - sc(c.AbstractTokenizer.Scanner).position
 // the body of a comment tag: free text up to (not including) the next "}}" or the end of input; nil when it is empty
+// where the body of a comment that starts at i ends: at the first "}}" or at the end of input
+//@ rec bodyEnd(s seq[rune], i int) int decreases len(s) - i =
+//@     (i < 0 || i >= len(s)) ? len(s) : ((s[i] == 125 && i + 1 < len(s) && s[i+1] == 125) ? i : bodyEnd(s, i + 1))
 //@ func (c *MustacheTokenizer) readCommentBody
+//@   ensures[C10] cur(c.AbstractTokenizer.Scanner) == bodyEnd(seq(sc(c.AbstractTokenizer.Scanner).content), old(cur(c.AbstractTokenizer.Scanner)))
 //@   requires c != nil && c.AbstractTokenizer != nil && isScanner(c.AbstractTokenizer.Scanner)
 //@   requires forall i int :: 0 <= i && i < len(sc(c.AbstractTokenizer.Scanner).content) ==> scalar(sc(c.AbstractTokenizer.Scanner).content[i])
 //@   ensures[C04,C12] isScanner(c.AbstractTokenizer.Scanner) && sc(c.AbstractTokenizer.Scanner).content == old(sc(c.AbstractTokenizer.Scanner).content)
@@ -63,6 +67,7 @@ package tokenizers
 //@     invariant nextSymbol == chr(seq(sc(c.AbstractTokenizer.Scanner).content), sc(c.AbstractTokenizer.Scanner).position)
 //@     invariant spans(builder(tokenValue), c.AbstractTokenizer.Scanner, old(cur(c.AbstractTokenizer.Scanner)), sc(c.AbstractTokenizer.Scanner).position)
 //@     invariant line == L(seq(sc(c.AbstractTokenizer.Scanner).content), old(cur(c.AbstractTokenizer.Scanner))) && column == C(seq(sc(c.AbstractTokenizer.Scanner).content), old(cur(c.AbstractTokenizer.Scanner)))
+//@     invariant bodyEnd(seq(sc(c.AbstractTokenizer.Scanner).content), old(cur(c.AbstractTokenizer.Scanner))) == bodyEnd(seq(sc(c.AbstractTokenizer.Scanner).content), sc(c.AbstractTokenizer.Scanner).position)
 //@     decreases len(sc(c.AbstractTokenizer.Scanner).content) - sc(c.AbstractTokenizer.Scanner).position
 //
 // ---- the mustache tokenizer's read step: literal text in "special" mode, tags through the abstract tokenizer (C03) ----
